@@ -70,6 +70,17 @@ func ocraVal(c c06Case, pairMode bool) (obs, bad string) {
 func c06(r *ev.Run, pairMode bool) {
 	scen := "ocra-validate"
 	r.Scenario(scen, func(raw []byte) (string, string) { return ocraVal(unjson[c06Case](raw), pairMode) })
+	r.Scenario("ocra-validate-history", func(raw []byte) (string, string) {
+		obs := ""
+		for k, c := range unjson[[]c06Case](raw) {
+			o, bad := ocraVal(c, pairMode)
+			obs += o + ";"
+			if bad != "" {
+				return obs, fmt.Sprintf("step %d: %s", k, bad)
+			}
+		}
+		return obs, ""
+	})
 	if ReplayOnly {
 		return
 	}
@@ -177,6 +188,74 @@ func c06(r *ev.Run, pairMode bool) {
 		}
 		r.Eval(local)
 	})
+	// neighbouring-input histories: consecutive validations whose inputs differ in exactly one
+	// field, or whose variable-length fields CONCATENATE identically (boundary moved between
+	// challenge and session); a remembered result of the previous call must never answer this one
+	var hn int64
+	hist := func(sh shape, sec string, fam []oin) {
+		su, err := mkSuite("config", sh)
+		if err != nil {
+			return
+		}
+		codes := make([]string, len(fam))
+		for i, in := range fam {
+			codes[i], _ = otp.GenerateOCRA(sec, su, in.lib())
+		}
+		for i := range fam {
+			for j := range fam {
+				steps := []c06Case{{"config", sh, sec, fam[i], codes[i]}, {"config", sh, sec, fam[j], codes[i]}, {"config", sh, sec, fam[j], codes[j]}, {"config", sh, sec, fam[i], codes[j]}}
+				obs := ""
+				for k, c := range steps {
+					o, bad := ocraVal(c, pairMode)
+					obs += o + ";"
+					hn++
+					if bad != "" {
+						r.Fail("ocra-validate-history", fmt.Sprintf("step %d of a 4-step history, inputs %d then %d, %s: %s", k, i, j, sh.sig(), bad), steps[:k+1], "each validation judged on its own input", obs)
+						break
+					}
+				}
+			}
+		}
+	}
+	for hi, sh := range []shape{
+		{Text: "OCRA-1:HOTP-SHA1-6:QN08-S-T1", Hash: 0, Digits: 6, Q: true, S: true, T: true, QF: 1, TS: 1},
+		{Text: "qs", Hash: 1, Digits: 8, Q: true, S: true, QF: 3},
+		{Text: "OCRA-1:HOTP-SHA512-8:C-QH10-PSHA1-S128-T1M", Hash: 2, Digits: 8, C: true, Q: true, P: true, S: true, T: true, QF: 6, PH: 1, TS: 60},
+		{Text: "", Hash: 0, Digits: 10, C: true, Q: true, QF: 2},
+	} {
+		base := admissible(sh, 3)
+		base.Challenge = []byte("1234567890AB")
+		if sh.S {
+			base.Session = []byte("CDEF")
+		}
+		fam := []oin{base}
+		alt := func(f func(in *oin)) {
+			x := oin{clone(base.Counter), clone(base.Challenge), clone(base.Password), clone(base.Session), clone(base.Timestamp)}
+			f(&x)
+			fam = append(fam, x)
+		}
+		alt(func(in *oin) { in.Challenge[len(in.Challenge)-1] ^= 1 })
+		if sh.S {
+			alt(func(in *oin) { in.Challenge = append(in.Challenge, in.Session[:2]...); in.Session = in.Session[2:] }) // boundary moved right
+			alt(func(in *oin) { in.Session = append(in.Challenge[len(in.Challenge)-2:], in.Session...); in.Challenge = in.Challenge[:len(in.Challenge)-2] }) // boundary moved left
+			alt(func(in *oin) { in.Challenge = append(in.Challenge, in.Session...); in.Session = nil })
+			alt(func(in *oin) { in.Session[0] ^= 0x80 })
+		}
+		if sh.C {
+			alt(func(in *oin) { in.Counter[7]++ })
+		}
+		if sh.T {
+			alt(func(in *oin) { in.Timestamp[7]++ })
+		}
+		if sh.P {
+			alt(func(in *oin) { in.Password[0] ^= 1 })
+		}
+		for ki, key := range [][]byte{ocraKeys[1], ocraKeys[2]} {
+			hist(sh, spellings(key)[(hi+ki)%3], fam)
+		}
+	}
+	r.Eval(hn)
+	r.Set("neighbouring_input_history_steps", hn)
 	// failure causes: every way generation can fail => (false, error)
 	var fn int64
 	type fc struct {
